@@ -146,15 +146,16 @@ func c02ValidateChain(r *Run, fn *ssa.Function) {
 		r.Check("ValidateChain:CA-bit-of-leaf", k == leaf+".IsCA", r.FnPos(fn), "CA-only filter reads "+clipStr(k, 140))
 	}
 	// forbidden extensions: a set hit rejects; the set is the configured OIDs, the probe an extension of the leaf
-	rej := "make:map[string]bool[(asn1.ObjectIdentifier).String(*.Id)]#1"
+	// (the set is a map keyed by the OID string, whatever its value type: membership is what is tested)
+	rej := "make:map[string]*[(asn1.ObjectIdentifier).String(*.Id)]*"
 	r.FailEdge(fn, "ValidateChain", EdgeSpec{Name: "forbidden-extension", Atom: boolAtom(rej), Bad: "T", Want: wantErr(true), Unreach: vi})
 	ext := r.allocOf(fn, leaf+".Extensions[*]")
 	for _, k := range r.bindAtom(fn, boolAtom(rej)) {
-		r.Check("ValidateChain:forbidden-extension-probe", ext != "" && k == "make:map[string]bool[(asn1.ObjectIdentifier).String("+ext+".Id)]#1", r.FnPos(fn), "probes the OID of "+ext+" ← leaf.Extensions[i]")
+		r.Check("ValidateChain:forbidden-extension-probe", ext != "" && glob("make:map[string]*[(asn1.ObjectIdentifier).String("+ext+".Id)]*", k) && strings.Count(k, "(asn1.ObjectIdentifier).String(") == 1, r.FnPos(fn), "probes the OID of "+ext+" ← leaf.Extensions[i]")
 	}
-	c02MapSet(r, fn, "ValidateChain:forbidden-extension-set", "make:map[string]bool", "(asn1.ObjectIdentifier).String(p1.rejectExtIds[*])")
+	c02MapSet(r, fn, "ValidateChain:forbidden-extension-set", rej, "(asn1.ObjectIdentifier).String(p1.rejectExtIds[*])")
 	// required EKUs: with a non-empty list, no hit rejects
-	eku := "make:map[x509.ExtKeyUsage]bool[*]#1"
+	eku := "make:map[x509.ExtKeyUsage]*[*]*"
 	r.CheckCases(fn, "ValidateChain:required-EKU", CaseTable{
 		Atoms: []RuleAtom{{Name: "n", OrdA: "0", OrdB: "len(p1.extKeyUsages)"}, {Name: "hit", Pat: eku}},
 		Class: func(v map[string]string) string {
@@ -168,32 +169,57 @@ func c02ValidateChain(r *Run, fn *ssa.Function) {
 		Shared: map[string]bool{"ok": true},
 	})
 	for _, k := range r.bindAtom(fn, boolAtom(eku)) {
-		r.Check("ValidateChain:required-EKU-probe", glob("make:map[x509.ExtKeyUsage]bool["+leaf+".ExtKeyUsage[*]]#1", k), r.FnPos(fn), "probes "+clipStr(k, 160))
+		r.Check("ValidateChain:required-EKU-probe", glob("make:map[x509.ExtKeyUsage]*["+leaf+".ExtKeyUsage[*]]*", k), r.FnPos(fn), "probes "+clipStr(k, 160))
 	}
-	c02MapSet(r, fn, "ValidateChain:required-EKU-set", "make:map[x509.ExtKeyUsage]bool", "p1.extKeyUsages[*]")
+	c02MapSet(r, fn, "ValidateChain:required-EKU-set", eku, "p1.extKeyUsages[*]")
 
 	// every raw certificate is parsed; a fatal error rejects; the parsed chain holds all of them in order
 	parse := r.OneCall(fn, "ValidateChain:ParseCertificate", "x509.ParseCertificate")
+	var feasible *Reach // the edges executions can take, given that a fatal error is not nil
 	if parse != nil {
 		r.ExpectArg(parse, "ValidateChain:parses-each-raw-cert", 0, "p0[*it@*]")
-		r.FailEdge(fn, "ValidateChain", EdgeSpec{Name: "unparsable-certificate", Atom: boolAtom("x509.IsFatal(x509.ParseCertificate(*)#1)"), Bad: "T", Want: wantErr(true), Unreach: vi})
+		// a fatal error is never nil (IsFatal(nil) = false, established on IsFatal itself): where the error
+		// is handed on through a test `err != nil` the nil side cannot be taken after IsFatal(err)
+		fatal := c02FatalImplications(r, fn)
+		walk := func(s Sigma, from *ssa.BasicBlock) *Reach { return r.WalkImplied(fn, s, from, nil, fatal) }
+		r.FailEdgeWalk(fn, "ValidateChain", EdgeSpec{Name: "unparsable-certificate", Atom: boolAtom("x509.IsFatal(x509.ParseCertificate(*)#1)"), Bad: "T", Want: wantErr(true), Unreach: vi}, walk)
+		feasible = r.WalkImplied(fn, Sigma{}, nil, nil, fatal)
+		r.Valuations++
 		h := loopHeaderOf(parse.Block())
 		ok := h != nil && len(r.bindAtom(fn, ordAtomR("*it@*", "len(p0)"))) > 0
 		r.Check("ValidateChain:loop-over-whole-raw-chain", ok, r.Where(parse), "the parse loop runs over all len(rawChain) elements")
+		// the parsed chain (the one compared with the verified path) is filled in the parse loop with each
+		// parsed certificate: chain = append(chain, cert), or chain[i] = cert in a chain of len(rawChain)
+		fills, makes, built := sliceFills(CallArgs(ce)[0])
+		r.Check("ValidateChain:chain-built-here", built, r.Where(ce), "the parsed chain "+clipStr(chain, 100)+" is built by single-element appends / index assignments")
 		var app []ssa.Instruction
-		for _, c := range CallsTo(fn, "append") {
-			if loopHeaderOf(c.Block()) == h && h != nil {
-				app = append(app, c)
-				el := ""
-				if a := baseAlloc(wSliceBase(CallArgs(c)[1])); a != nil {
-					for _, st := range r.storesAt(fn, "&("+r.D.allocName(a)+"[0])") {
-						el = r.D.D(st.Val)
-					}
-				}
-				r.Check("ValidateChain:chain-element", el == r.D.D(parse.Value())+"#0", r.Where(c), "chain = append(chain, "+el+")")
+		for _, f := range fills {
+			if h == nil || loopHeaderOf(f.In.Block()) != h {
+				r.Fail("ValidateChain:chain-element", r.Where(f.In), "the parsed chain is also filled outside the parse loop with "+r.D.D(f.Elem))
+				continue
 			}
+			app = append(app, f.In)
+			el := r.D.D(f.Elem)
+			good := el == r.D.D(parse.Value())+"#0"
+			what := "chain = append(chain, " + el + ")"
+			if f.Index != nil { // position i holds the certificate parsed from raw entry i; the chain has one slot per entry
+				what = "chain[" + r.D.D(f.Index) + "] = " + el
+				good = good && r.D.D(CallArgs(parse)[0]) == "p0["+r.D.D(f.Index)+"]" && len(makes) == 1 && r.D.D(makes[0].Len) == "len(p0)"
+			}
+			r.Check("ValidateChain:chain-element", good, r.Where(f.In), what)
 		}
 		r.GuardAtom(fn, nil, "ValidateChain:every-parsed-cert-kept", boolAtom("x509.IsFatal(x509.ParseCertificate(*)#1)"), "T", app, "append of the parsed certificate to the chain")
+		// … and kept unconditionally: without a fatal error no iteration ends before the certificate is in the chain
+		if h != nil && h != parse.Block() && len(app) > 0 {
+			s := Sigma{}
+			for _, k := range r.bindAtom(fn, boolAtom("x509.IsFatal(x509.ParseCertificate(*)#1)")) {
+				s[k] = "F"
+			}
+			stop := wBlockSet(app)
+			skips := !stop[parse.Block()] && r.D.Walk(fn, s, parse.Block(), stop).Blocks[h]
+			r.Valuations++
+			r.Check("ValidateChain:every-parsed-cert-kept:unconditionally", !skips, r.Where(app[0]), "after a parse without fatal error the next iteration is reached only through the statement that puts the certificate into the chain")
+		}
 	}
 
 	// ---- R2
@@ -201,15 +227,32 @@ func c02ValidateChain(r *Run, fn *ssa.Function) {
 	pool := "x509util.NewPEMCertPool()"
 	r.ExpectArg(verify, "ValidateChain:Verify.leaf", 0, leaf)
 	r.ExpectFields(fn, "ValidateChain:VerifyOptions", CallArgs(verify)[1], map[string]string{
-		"Roots": "(*x509util.PEMCertPool).CertPool(p1.trustedRoots)", "Intermediates": "(*x509util.PEMCertPool).CertPool(" + pool + ")",
+		"Roots":             "(*x509util.PEMCertPool).CertPool(p1.trustedRoots)",
 		"DisableNameChecks": "false", "DisableTimeChecks": "true", "DisableCriticalExtensionChecks": "true", "DisableEKUChecks": "true",
 		"DisablePathLenChecks": "true", "DisableNameConstraintChecks": "true", "KeyUsages": "p1.extKeyUsages"})
+	if a := baseAlloc(CallArgs(verify)[1]); a != nil {
+		// the pool as it is on the paths executions can take (a pool handed on together with an error
+		// merges with nil on the path of a fatal-but-nil error, which does not exist)
+		r.ExpectStoresUnder(fn, "ValidateChain:VerifyOptions.Intermediates", "&("+r.D.allocName(a)+".Intermediates)", "(*x509util.PEMCertPool).CertPool("+pool+")", 1, feasible)
+	} else {
+		r.Fail("ValidateChain:VerifyOptions.Intermediates", r.Where(verify), "undecided: the options are not built in a local allocation")
+	}
 	if a := baseAlloc(CallArgs(verify)[1]); a != nil { // no further relaxation or constraint is set
 		n := len(r.StoresTo(fn, "&("+r.D.allocName(a)+".*)"))
 		r.Check("ValidateChain:VerifyOptions:no-other-field", n == 10, r.Where(verify), fmt.Sprintf("%d fields of VerifyOptions are set (Roots, CurrentTime, Intermediates, 6 switches, KeyUsages)", n))
 	}
 	adds := CallsTo(fn, "(*x509util.PEMCertPool).AddCert")
-	r.GuardAtom(fn, nil, "ValidateChain:leaf-not-an-intermediate", ordAtomR("*it@*", "0"), "<,=", asInstrs(adds), "AddCert to the intermediate pool")
+	// position 0 of the raw chain never enters the pool (a loop counter that cannot be negative has no case i < 0)
+	pos := ordAtomR("*it@*", "0")
+	if parse != nil {
+		if i := indexOfElem(CallArgs(parse)[0]); i != nil && glob("*it@*", r.D.D(i)) {
+			pos = ordAtomR(r.D.D(i), "0")
+			if nonNegCounter(i) {
+				pos.Dom = []string{"=", ">"}
+			}
+		}
+	}
+	r.GuardAtom(fn, nil, "ValidateChain:leaf-not-an-intermediate", pos, "<,=", asInstrs(adds), "AddCert to the intermediate pool")
 	for _, c := range adds {
 		r.ExpectArg(c, "ValidateChain:intermediate-pool", 0, pool)
 		if parse != nil {
@@ -237,18 +280,66 @@ func c02ValidateChain(r *Run, fn *ssa.Function) {
 	r.FailEdge(fn, "ValidateChain", EdgeSpec{Name: "no-verified-path", Atom: ordAtomR("0", "len("+paths+")"), Bad: "=", Want: wantErr(true)})
 }
 
-// c02MapSet: the only updates of the set are set[key] = true with key matching keyGlob (at least one).
-func c02MapSet(r *Run, fn *ssa.Function, key, mapGlob, keyGlob string) {
+// c02MapSet: the set probed by the branch conditions matching probeGlob (a map lookup) is only ever updated
+// with keys matching keyGlob (at least once); a membership probe (`_, ok := set[k]`) holds for any stored
+// value, a value probe (`set[k]`) needs the value true.
+func c02MapSet(r *Run, fn *ssa.Function, key, probeGlob, keyGlob string) {
 	n := 0
-	eachInstr(fn, func(in ssa.Instruction) {
-		if mu, ok := in.(*ssa.MapUpdate); ok && glob(mapGlob, r.D.D(mu.Map)) {
-			n++
-			r.Check(key, glob(keyGlob, r.D.D(mu.Key)) && r.D.D(mu.Value) == "true", r.Where(mu), "set["+r.D.D(mu.Key)+"] ← "+r.D.D(mu.Value))
+	for _, site := range r.atomSites(fn, wKeySet(r.bindAtom(fn, boolAtom(probeGlob)))) {
+		member := false
+		v := site
+		if e, ok := v.(*ssa.Extract); ok {
+			member = e.Index == 1
+			v = e.Tuple
 		}
-	})
-	if n == 0 {
-		r.Fail(key, r.FnPos(fn), "no update of "+mapGlob)
+		lk, ok := v.(*ssa.Lookup)
+		if !ok {
+			r.Fail(key, r.FnPos(fn), "undecided: the probe "+r.D.D(site)+" is not a map lookup")
+			continue
+		}
+		eachInstr(fn, func(in ssa.Instruction) {
+			if mu, ok := in.(*ssa.MapUpdate); ok && (mu.Map == lk.X || r.D.D(mu.Map) == r.D.D(lk.X)) {
+				n++
+				r.Check(key, glob(keyGlob, r.D.D(mu.Key)) && (member || r.D.D(mu.Value) == "true"), r.Where(mu), "set["+r.D.D(mu.Key)+"] ← "+r.D.D(mu.Value))
+			}
+		})
 	}
+	if n == 0 {
+		r.Fail(key, r.FnPos(fn), "no update of the set probed by "+probeGlob)
+	}
+}
+
+// c02FatalImplications: for every x509.IsFatal(e) of fn the implication IsFatal(e) = T ⇒ e ≠ nil, after
+// establishing on IsFatal itself that a nil error is not fatal (none when that cannot be established).
+func c02FatalImplications(r *Run, fn *ssa.Function) []Implication {
+	isf := r.P.Func("x509.IsFatal")
+	if isf == nil || len(isf.Blocks) == 0 {
+		return nil
+	}
+	good, n := len(r.bindAtom(isf, nilAtom("p0"))) == 1, 0
+	if good {
+		for _, ret := range reachableReturns(isf, r.D.Walk(isf, Sigma{"nil?p0": "nil"}, nil, nil)) {
+			n++
+			good = good && r.D.D(ret.Results[0]) == "false"
+		}
+		r.Valuations++
+	}
+	if !r.Check("IsFatal:nil-is-not-fatal", good && n > 0, r.FnPos(isf), fmt.Sprintf("x509.IsFatal(nil) returns false on all %d returns reachable with a nil argument", n)) {
+		return nil
+	}
+	var out []Implication
+	for _, c := range CallsTo(fn, "x509.IsFatal") {
+		call, ok := c.(*ssa.Call)
+		if !ok || len(call.Call.Args) != 1 {
+			continue
+		}
+		im := Implication{If: r.D.D(call), IfVal: "T", Then: "nil?" + r.D.D(call.Call.Args[0]), ThenVal: "non"}
+		if def, ok := call.Call.Args[0].(ssa.Instruction); ok {
+			im.Def = def.Block()
+		}
+		out = append(out, im)
+	}
+	return out
 }
 
 func c02ChainsEquivalent(r *Run, fn *ssa.Function) {
